@@ -37,14 +37,38 @@ func (c *ctx) resolveAll(shuffle bool) {
 // the build cache are compared with the state machine of BuildCache.lean (the driver keeps the
 // model state across `use` lines).
 func (c *ctx) cacheHistory(nops int) {
-	var pool []*universe.UStruct
+	var pool, graphs []*universe.UStruct
 	for i := range universe.Structs {
 		u := &universe.Structs[i]
 		if u.Group == "graph" || u.Group == "invalid" {
 			pool = append(pool, u)
 		}
+		if u.Group == "graph" {
+			graphs = append(graphs, u)
+		}
 	}
 	leafs := c.accepted("leaf", "recursive")
+	use := func(u *universe.UStruct) {
+		g := c.cfg()
+		g.maxLen = 2
+		g.bigStr = false
+		g.minLen = 1
+		c.h.opUseVal(u, g)
+	}
+	// every reference graph (gentypes: blocks of 7): its members in several random orders, so that
+	// every member is used before and after every other one, valid and invalid alike
+	const graphSize = 7
+	for lo := 0; lo+graphSize <= len(graphs); lo += graphSize {
+		ms := graphs[lo : lo+graphSize]
+		for round := 0; round < 4; round++ {
+			for _, i := range c.r.Perm(len(ms)) {
+				use(ms[i])
+				if c.r.Intn(6) == 0 {
+					use(pool[c.r.Intn(len(pool))])
+				}
+			}
+		}
+	}
 	for i := 0; i < nops; i++ {
 		var u *universe.UStruct
 		if c.r.Intn(8) == 0 && len(leafs) > 0 {
@@ -52,21 +76,44 @@ func (c *ctx) cacheHistory(nops int) {
 		} else {
 			u = pool[c.r.Intn(len(pool))]
 		}
-		c.h.opUse(u)
+		use(u)
 	}
 }
 
-func (h *H) opUse(u *universe.UStruct) {
+// opUse: one use of a type with a populated value (nested pointers non-nil where the generator can
+// make them so: a half-linked descriptor is dereferenced, not just looked up) and, when accepted, a
+// decode of what was written.
+func (h *H) opUse(u *universe.UStruct) { h.opUseVal(u, nil) }
+
+func (h *H) opUseVal(u *universe.UStruct, g *genCfg) {
 	line := fmt.Sprintf("use %d", u.Sid)
 	h.mark(line)
 	res := safely(func() string {
 		p := reflect.New(u.Type)
-		buf := make([]byte, 4096)
-		if _, err := frugal.EncodeObject(buf, nil, p.Interface()); err != nil {
-			if strings.Contains(err.Error(), "buffer") {
-				return "ok" // the type was accepted; only the probe buffer was short
-			}
+		if g != nil {
+			func() {
+				defer func() { recover() }() // types the generator cannot populate stay zero
+				g.h = h
+				g.gen(p.Elem())
+			}()
+		}
+		var n int
+		sz := 4096
+		func() {
+			defer func() { recover() }()
+			sz = frugal.EncodedSize(p.Interface()) + 16
+		}()
+		buf := make([]byte, sz)
+		n, err := frugal.EncodeObject(buf, nil, p.Interface())
+		if err != nil {
 			return "err"
+		}
+		q := reflect.New(u.Type)
+		if _, err := frugal.DecodeObject(buf[:n], q.Interface()); err != nil {
+			if strings.Contains(err.Error(), "required") {
+				return "ok" // a nil struct pointer written as an empty struct: see C01 (rtOK)
+			}
+			return "decode-failed-after-encode"
 		}
 		return "ok"
 	})
